@@ -744,6 +744,9 @@ func (it *Interp) execNode(n Node, e *env, b *strings.Builder) error {
 				}
 				b.WriteString(s)
 				it.ifchBody[n] = &s
+			} else if n.HasElse {
+				// the content is what it was the last time: the else branch, as in the watched form
+				return it.exec(n.Else, e, b)
 			}
 			return nil
 		}
